@@ -336,7 +336,7 @@ WINDOW:
 		}
 	}
 	e.peer.Stop() // the routines notice at their next turn and return
-	grace := time.After(3 * time.Second)
+	grace := time.After(12 * time.Second)
 GRACE:
 	for !(got["gossipDataRoutine"] && got["gossipVotesRoutine"]) {
 		select {
@@ -344,7 +344,7 @@ GRACE:
 			got[x.which] = true
 			report(x)
 		case <-grace:
-			r.fail(si, action, "property", true, "wedge:gossip:"+name, "a gossip routine did not return within 3 s after the peer was stopped (it is stuck reading the poisoned PeerState)\npeer state: "+safePS(e.ps), nil, nil)
+			r.fail(si, action, "property", true, "wedge:gossip:"+name, "a gossip routine did not return within 12 s after the peer was stopped (it is stuck reading the poisoned PeerState)\npeer state: "+safePS(e.ps), nil, nil)
 			okAll = false
 			break GRACE
 		}
